@@ -110,6 +110,31 @@ func init() {
 			}
 			return nil
 		},
+		"verifAssertEqSweep": func(in *Interp, fn *ssa.Function, a []Value) Value {
+			x, y := in.sliceBytes(a[0]), in.sliceBytes(a[1])
+			msg := in.concStr(a[2])
+			if len(x) != len(y) {
+				in.assert(in.C.False, msg)
+				return nil
+			}
+			if in.X.pos < len(in.X.prefix) {
+				return nil // replaying a prefix: decided on an earlier path
+			}
+			roots := append(append([]*smt.Term(nil), x...), y...)
+			out, st := smt.Sweep(in.C, in.X.S, roots, 8)
+			in.X.SweepProved += st.Proved
+			in.X.SweepCandidates += st.Candidates
+			conj := make([]*smt.Term, len(x))
+			for i := range x {
+				conj[i] = in.C.Eq(out[i], out[len(x)+i])
+			}
+			in.assert(in.C.And(conj...), msg)
+			return nil
+		},
+		"verifWordLevel": func(in *Interp, fn *ssa.Function, a []Value) Value {
+			in.C.NoSplit = in.boolTerm(a[0]).IsTrue()
+			return nil
+		},
 		"verifSymbolic": func(in *Interp, fn *ssa.Function, a []Value) Value { return in.C.True },
 		"verifNote":     func(in *Interp, fn *ssa.Function, a []Value) Value { return nil },
 		"verifTimeAgo": func(in *Interp, fn *ssa.Function, a []Value) Value {
